@@ -144,9 +144,16 @@ where
         .or(node_size)
         .unwrap_or(measured_size + content_box_inset.sum_axes())
         .maybe_clamp(node_min_size, node_max_size);
+    // The aspect ratio only determines the height when the height is not already determined by the style or the parent,
+    // and the height it determines is still subject to the min/max height
     let size = Size {
         width: clamped_size.width,
-        height: f32_max(clamped_size.height, aspect_ratio.map(|ratio| clamped_size.width / ratio).unwrap_or(0.0)),
+        height: if known_dimensions.or(node_size).height.is_some() {
+            clamped_size.height
+        } else {
+            f32_max(clamped_size.height, aspect_ratio.map(|ratio| clamped_size.width / ratio).unwrap_or(0.0))
+                .maybe_clamp(node_min_size.height, node_max_size.height)
+        },
     };
     let size = size.maybe_max(padding_border.sum_axes().map(Some));
 
